@@ -76,7 +76,8 @@ impl From {
 impl Case {
     fn constraint(&self) -> String {
         // the size operand varies: closed range, extensible range, single value, extensible single value
-        let size = ["SIZE (1..8)", "SIZE (1..4, ...)", "SIZE (4)", "SIZE (4, ...)"][self.froms[0].asn().len() % 4];
+        // (only beside a FROM of one operand: the model of the mixed FROM / SIZE arms is calibrated there)
+        let size = if self.froms[0].rest.is_empty() { ["SIZE (1..8)", "SIZE (1..4, ...)", "SIZE (4)", "SIZE (4, ...)"][self.froms[0].asn().len() % 4] } else { "SIZE (1..8)" };
         match self.size {
             SizeForm::None => self.froms.iter().map(|f| format!("({})", f.asn())).collect::<Vec<_>>().join(""),
             SizeForm::SerialBefore => format!("({size}){}", self.froms.iter().map(|f| format!("({})", f.asn())).collect::<Vec<_>>().join("")),
@@ -109,9 +110,6 @@ fn pool(ty: &str) -> Vec<char> {
         "NumericString" => " 0123456789".chars().collect(),
         "PrintableString" => "ABCXYZabcxyz019 '()+,-./:=?".chars().collect(),
         "GeneralizedTime" => "0123456789".chars().collect(),
-        // the 16-bit / 32-bit alphabets also around the surrogate gap, where code point and table position part
-        "BMPString" => "ABCXYZabcxyz019 !#~\u{D7FF}\u{E000}\u{E01F}\u{F7FE}\u{F7FF}\u{FFFD}".chars().collect(),
-        "UniversalString" => "ABCXYZabcxyz019 !#~\u{D7FF}\u{E000}\u{E01F}\u{F7FE}\u{F7FF}\u{FFFD}\u{10000}\u{10FFFF}".chars().collect(),
         _ => "ABCXYZabcxyz019 !#~".chars().collect(),
     }
 }
@@ -160,6 +158,19 @@ pub fn gen_cases(cfg: &RunCfg) -> Vec<Case> {
             let f1 = From { first: gen_elem(&mut rng, ty), rest: vec![] };
             let f2 = From { first: gen_elem(&mut rng, ty), rest: vec![] };
             cases.push(Case { ty, froms: vec![f1, f2], size: [SizeForm::None, SizeForm::SerialAfter][rep % 2], component: rep % 2 == 1 });
+        }
+    }
+    // the 16-bit / 32-bit alphabets around the surrogate gap, where code point and table position part: single
+    // strings, ranges and unions of them (inside Dom), alone and beside SIZE
+    let gap: Vec<char> = "az\u{D7FF}\u{E000}\u{E01F}\u{F7FE}\u{F7FF}\u{FFFD}".chars().collect();
+    for ty in ["BMPString", "UniversalString"] {
+        for (i, a) in gap.iter().enumerate() {
+            for b in gap.iter().skip(i) {
+                let r = AElem::Range(Some(*a), Some(*b));
+                let sizes = [SizeForm::None, SizeForm::SerialAfter, SizeForm::InterAfter];
+                cases.push(Case { ty, froms: vec![From { first: r.clone(), rest: vec![] }], size: sizes[(i + *b as usize) % 3], component: i % 2 == 0 });
+                cases.push(Case { ty, froms: vec![From { first: AElem::Str(format!("{a}{b}")), rest: vec![(Op::Union, r)] }], size: SizeForm::None, component: i % 2 == 1 });
+            }
         }
     }
     // unions only (inside Dom), longer
